@@ -764,6 +764,22 @@ fn judge_c08(t: &SupplyTrace, o: &SupplyOutcome, ev: &LevelEval, root_sig_bad: b
                     ));
                     return;
                 }
+                // (iii) for a later root inspection: the link file of an earlier one lay in the working directory when
+                // its command started (the actor's own observation), so it is among its materials; a DISALLOW of it
+                // that comes first must be fatal
+                if ran && a.exit == ExitSpec::Code(0) && lid == "root" && insp.name != t.root.layout.inspect[0].name {
+                    let saw: Vec<&str> = events.iter().filter_map(|l| l.strip_prefix(&format!("saw {} ", a.id))).flat_map(|r| r.split(' ')).collect();
+                    if let Some(r) = insp.exp_mat.first() {
+                        if r.len() == 2 && r[0] == "DISALLOW" && saw.contains(&r[1].as_str()) && !t.work_files.iter().any(|w| w.0 == r[1]) {
+                            f.push(finding(
+                                "C08",
+                                "inspection-rule-violation-accepted",
+                                format!("repetition {rep}: inspection {}: '{}' lay in the working directory when its command started, its rules DISALLOW it among its materials, yet verification returned Ok", a.id, r[1]),
+                            ));
+                            return;
+                        }
+                    }
+                }
                 // (iii) the inspection's recorded materials and products are subject to its rules:
                 // a DISALLOW rule that names a file present before (materials) or after (products)
                 if ran && a.exit == ExitSpec::Code(0) && lid == "root" && insp.name == t.root.layout.inspect[0].name {
